@@ -302,13 +302,15 @@ Theorem dims_hevc s c0 :
     sps_get H_width c = hs_width s /\ sps_get H_height c = hs_height s /\
     Z.of_N (sps_get H_outw c) = hspec_width s /\ Z.of_N (sps_get H_outh c) = hspec_height s.
 Proof.
-  intro Hok. unfold hevc_parse_sps, hevc_run, hevc_sps_nal.
+  intro Hok. unfold hevc_parse_sps, hevc_parse_sps_f, hevc_run, hevc_sps_nal.
   replace (lenN (66 :: 1 :: epb_insert (bytes_of_bits (encode_hevc_sps s))) <? 2) with false.
   2:{ symmetry. apply N.ltb_ge. unfold lenN. cbn [length]. lia. }
   cbn [skipn]. rewrite nal2rbsp_epb. unfold br_new.
-  destruct (bits_of_bytes_of_bits (encode_hevc_sps s)) as [pad Hpad]. rewrite Hpad.
-  destruct (hevc_body_ok s pad c0 Hok) as [lg Hbody].
-  fold (st (encode_hevc_sps s ++ pad)). rewrite Hbody. cbn [snd].
+  (* the zero byte ParseSps appends to the RBSP copy is more trailing data *)
+  rewrite bits_of_bytes_app.
+  destruct (bits_of_bytes_of_bits (encode_hevc_sps s)) as [pad Hpad]. rewrite Hpad, <- app_assoc.
+  destruct (hevc_body_ok s (pad ++ bits_of_bytes [0]) c0 Hok) as [lg Hbody].
+  fold (st (encode_hevc_sps s ++ pad ++ bits_of_bytes [0])). rewrite Hbody. cbn [snd].
   eexists. split; [reflexivity|]. split; [reflexivity|]. split; [reflexivity|].
   cbn [sps_get N.eqb Pos.eqb H_outw H_outh H_bdc H_bdl].
   (* sizes *)
